@@ -173,9 +173,9 @@ func (g *guard) ReleaseTreasureGuard(guardID ID) {
 
 	if len(g.waitForUnlock) > 0 && g.waitForUnlock[0] == int64(guardID) {
 		g.waitForUnlock = g.waitForUnlock[1:]
-		if len(g.waitForUnlock) == 0 {
-			atomic.StoreInt64(&g.largestGuardID, 0)
-		}
+		// Guard IDs are never reused: restarting the counter when the queue empties
+		// would hand the next holder an ID that a previous holder still knows, so a
+		// late duplicate release of the old ID would release the new holder.
 		g.cond.Broadcast()
 		return
 	}
